@@ -15,6 +15,7 @@ def run(ck):
     l1_radix(ck, w)
     l2_identity_swap(ck, w)
     l3_from_xy(ck, w)
+    k1_constants(ck, w)
 
 
 DIGITS = ('to_u64_digits', 'to_u32_digits', 'iter_u64_digits', 'iter_u32_digits')
@@ -105,3 +106,18 @@ def l3_from_xy(ck, w):
         ck.record('C06.L3', f'{f["_xid"]}:compares-both-coordinates', both and not unwraps, 'decoded point compared with both coordinates, decoding failure -> None',
                   f'{f["_nid"]}: the point decoded from the compressed form is ' + ('not compared with both coordinates' if not both else 'unwrapped with expect/unwrap') +
                   ': wrong coordinates are accepted (or an invalid coordinate panics)', hirq.fn_loc(f))
+
+
+def k1_constants(ck, w, rule='C06.K1'):
+    """the curve parameters the gadgets constrain with are those of the curve implementation"""
+    from ..engines import consteq
+    ck.rule(rule, 'curve parameters (values computed by the compiler\'s const evaluator): the coefficients the in-circuit group law uses (EdwardsCurve::A / D, '
+                  'WeierstrassCurve::A / B of the circuits crate) equal the constants of the curve implementation in the curves crate, these satisfy the published '
+                  'curve equations (Jubjub d = -10240/10241, Curve25519 d = -121665/121666, a = -1; BLS12-381 G1 b = 4), EDWARDS_D2 = 2d, and NUM_BITS_SUBGROUP is '
+                  'the bit length of the order of the prime-order subgroup (the number of scalar bits the multiplication gadgets range over).')
+    n = 0
+    for cid, ok, detail, loc in consteq.curve_equations(consteq.load(w, 'curves'), consteq.load(w, 'circuits')):
+        n += 1
+        ck.record(rule, cid, ok, detail, f'{cid} does not satisfy its definition ({detail}): the in-circuit group law and the off-circuit implementation disagree, or '
+                  f'scalars are decomposed over the wrong number of bits', loc)
+    ck.floor(rule, 'curve parameter equations', n, 15)
